@@ -273,19 +273,27 @@ func init() {
 				k, w := kw(o.k, o.w)
 				out = append(out, inst("VerifModes", 6, base, "op", o.op, "K", k, "Kd", 1, "W", w))
 			}
-			modes := []string{"half_even", "floor"}
-			if thor {
-				modes = allModes
+			type relT struct {
+				rel, op string
+				modes   []string
 			}
-			for _, m := range modes {
-				b := p("Pmin", 1, "regime", 0, "traps", "zero", "mode", m, "Kd", 1)
-				for _, r := range [][2]string{{"commute", "add"}, {"commute", "mul"}, {"sub_is_add_neg", "sub"}, {"mirror", "add"}, {"mirror", "sub"}, {"mirror", "mul"}, {"mirror", "quo"}, {"mirror", "round"},
-					{"scale", "add"}, {"scale", "sub"}, {"scale", "mul"}, {"scale", "quo"}, {"scale", "rem"}, {"monotone", "round"}} {
+			he, fl := []string{"half_even"}, []string{"floor"}
+			both := []string{"half_even", "floor"}
+			rels := []relT{{"commute", "add", he}, {"commute", "mul", he}, {"sub_is_add_neg", "sub", fl}, {"mirror", "add", fl}, {"mirror", "sub", fl},
+				{"mirror", "mul", he}, {"mirror", "quo", he}, {"mirror", "round", both}, {"scale", "add", he}, {"scale", "sub", fl}, {"scale", "mul", he},
+				{"scale", "quo", he}, {"scale", "rem", he}, {"monotone", "round", both}}
+			for _, r := range rels {
+				modes := r.modes
+				if thor {
+					modes = allModes
+				}
+				for _, m := range modes {
+					b := p("Pmin", 1, "regime", 0, "traps", "zero", "mode", m, "Kd", 1)
 					k, w := kw(2, 2)
-					if r[1] == "round" || r[1] == "mul" {
+					if r.op == "round" || r.op == "mul" {
 						k++
 					}
-					out = append(out, inst("VerifRelations", 3, b, "rel", r[0], "op", r[1], "K", k, "W", w))
+					out = append(out, inst("VerifRelations", 3, b, "rel", r.rel, "op", r.op, "K", k, "W", w))
 				}
 			}
 			return out
